@@ -246,12 +246,31 @@ func (r *fragmentingReader) Close() error {
 		return r.err
 	}
 
-	// There are no more chunks in this fragments, but more fragments - get the next fragment
-	if r.err = r.recvAndParseNextFragment(false); r.err != nil {
-		return r.err
-	}
+	// There are no more chunks in this fragments, but more fragments - get the next fragment.
+	// Its first chunk still belongs to the argument being closed, so it must be
+	// the empty chunk marking the end of that argument; the chunk after it is
+	// the first chunk of the next argument.
+	for {
+		if r.err = r.recvAndParseNextFragment(false); r.err != nil {
+			return r.err
+		}
 
-	return nil
+		if len(r.curChunk) > 0 {
+			// There was more data for the argument being closed.
+			r.err = errMoreDataInArgument
+			return r.err
+		}
+
+		if len(r.remainingChunks) > 0 {
+			r.curChunk, r.remainingChunks = r.remainingChunks[0], r.remainingChunks[1:]
+			return nil
+		}
+
+		if !r.hasMoreFragments {
+			r.err = errNoMoreFragments
+			return r.err
+		}
+	}
 }
 
 func (r *fragmentingReader) recvAndParseNextFragment(initial bool) error {
